@@ -161,4 +161,147 @@ getUnalignedFragments = FunctionSpec(
          "query found by id, and its shift is a - so label numbers and coordinates of second-pass records refer to the whole query; no exception "
          "(query lookup, list.index, slicing with Python's negative-index semantics)")
 
-SPECS = [check_overlap, create, filterOut, getUnalignedFragments]
+# ------------------------------------------------------------------ AlignmentResults.resolve (join decision per reference and query)
+rowResolve = FunctionSpec(
+    file=F, qualname='AlignmentResultRow.resolve', params=dict(self=ROW, alignedRest=ROW), returns=OPT(ROW), trusted=True, serves=('C08',),
+    ensures=lambda C, res: [('joined_row_carries_the_ids_and_strand_of_the_first_part',
+                             z3.Implies(z3.Not(res.none), z3.And(res.val.queryId == C.self.queryId, res.val.referenceId == C.self.referenceId,
+                                                                 res.val.reverseStrand == C.self.reverseStrand)))],
+    note="ASSUMED here (conflict resolution between the first segments of the two records, then AlignmentResultRow.create with self's ids and strand): "
+         "None or a row with the first part's ids and strand; its content is checked by the bounded C08/C15 monitors")
+
+
+def _gap(a, b):
+    return zmax(a.referenceStartPosition, b.referenceStartPosition) - zmin(a.referenceEndPosition, b.referenceEndPosition)
+
+
+def _in_rows(R, x):
+    k = z3.Int(fresh_name('rk'))
+    return z3.Exists([k], z3.And(rng(0, k, R.len), R.raw(k).t == x))
+
+
+def _mapset(m, key, val):
+    return z3.Store(m, key, val)
+
+
+def _join_log(L):
+    """ghost log at joined.append(resolved): the two rows the joined row was made from"""
+    e = L._e
+    g = L.group
+    L.assert_('joined_parts_are_two_input_rows', z3.And(_in_rows(L.rows, g.raw(0).t), _in_rows(L.rows, g.raw(1).t)), 'call:append#1')
+    L.set('wa', _mapset(L.wa, g.raw(0).t, L.ga.len))
+    L.set('wb', _mapset(L.wb, g.raw(1).t, L.gb.len))
+    L.set('ga', e.list_append(L.raw('ga'), g.raw(0)))
+    L.set('gb', e.list_append(L.raw('gb'), g.raw(1)))
+
+
+def _sep_one(L):
+    """ghost map update at separate.append(group[0])"""
+    L.set('wsep', _mapset(L.wsep, L.group.raw(0).t, L.separate.len - 1))
+
+
+def _sep_two(site):
+    def h(L):
+        """ghost map update at separate.extend(group): under the precondition a group that is not a singleton has exactly two rows"""
+        g = L.group
+        # stepping stones: if the group had a third row, its first three rows would be three different input rows (traced back through
+        # the two sorts and the two groupings) with the same reference and query id - excluded by the precondition
+        gl, sl = L.note('groupby_log', ()), L.note('sorted_log', ())
+        vg1, vg2, so1, so2 = gl[0], gl[1], sl[0], sl[1]
+        R = L.rows
+        idx = [so1['pi'](vg1.b(L.for_0) + so2['pi'](vg2.b(L.for_1) + j)) for j in range(3)]
+        big = g.len >= 3
+        L.assert_('lemma_three_rows_of_a_group_share_reference_and_query', z3.Implies(big, z3.And(
+            g[0].queryId == g[1].queryId, g[1].queryId == g[2].queryId, g[0].referenceId == g[1].referenceId, g[1].referenceId == g[2].referenceId)), site)
+        L.assert_('lemma_three_rows_of_a_group_are_three_different_input_rows', z3.Implies(big, z3.And(
+            *[z3.And(0 <= idx[j], idx[j] < R.len, R.raw(idx[j]).t == g.raw(j).t) for j in range(3)],
+            idx[0] != idx[1], idx[1] != idx[2], idx[0] != idx[2])), site)
+        L.assert_('a_group_has_at_most_two_rows', g.len == 2, site)
+        n = L.separate.len
+        L.set('wsep', _mapset(_mapset(L.wsep, g.raw(0).t, n - 2), g.raw(1).t, n - 1))
+    return h
+
+
+def _joined_ok(C_or_L, J, ga, gb, maxdiff):
+    i = z3.Int('i')
+    return [('one_source_pair_per_joined_row', z3.And(ga.len == J.len, gb.len == J.len)),
+            ('joined_only_for_same_query_reference_and_strand_within_the_given_maxDifference', forall(i, z3.Implies(rng(0, i, J.len), z3.And(
+                ga[i].queryId == gb[i].queryId, ga[i].referenceId == gb[i].referenceId, ga[i].reverseStrand == gb[i].reverseStrand,
+                _gap(ga[i], gb[i]) <= maxdiff,
+                J[i].queryId == ga[i].queryId, J[i].referenceId == ga[i].referenceId, J[i].reverseStrand == ga[i].reverseStrand)), [J.raw(i).t]))]
+
+
+def _at(V, m, x):
+    """ghost map m sends row x to an index of list V that holds x"""
+    i = z3.Select(m, x)
+    return z3.And(0 <= i, i < V.len, z3.Select(V.v.arrs[0], V.v.off + i) == x)
+
+
+def _acc(L, x):
+    """row x is accounted for: among the un-joined rows, or one of the two source rows of a joined row (witnessed by ghost maps)"""
+    return z3.Or(_at(L.separate, L.wsep, x), _at(L.ga, L.wa, x), _at(L.gb, L.wb, x))
+
+
+def _done_upto(L, vg, so, g):
+    """every row of the (sorted) list that lies in a finished group is accounted for"""
+    T = z3.Int('T')
+    S = so['S']
+    sel = z3.Select(S.arrs[0], T)
+    return forall(T, z3.Implies(z3.And(0 <= T, T < vg.b(g)), _acc(L, sel)), [sel])
+
+
+def _rr_inv(L, inner=False):
+    i = z3.Int('i')
+    S = L.separate
+    gl, sl = L.note('groupby_log', ()), L.note('sorted_log', ())
+    cl = _joined_ok(L, L.joined, L.ga, L.gb, L.maxDifference) + \
+        [('unjoined_rows_are_input_rows', forall(i, z3.Implies(rng(0, i, S.len), _in_rows(L.rows, S.raw(i).t)), [S.raw(i).t]))]
+    if len(gl) >= 1 and len(sl) >= 1:
+        cl.append(('rows_of_finished_reference_groups_are_accounted_for', _done_upto(L, gl[0], sl[0], L.for_0)))
+    if inner and len(gl) >= 2 and len(sl) >= 2:
+        cl.append(('rows_of_finished_query_groups_are_accounted_for', _done_upto(L, gl[1], sl[1], L.for_1)))
+    return cl
+
+
+def _rr_requires(C):
+    R = C.rows
+    a, b, c = z3.Int('a'), z3.Int('b'), z3.Int('c')
+    same = lambda x, y: z3.And(R[x].referenceId == R[y].referenceId, R[x].queryId == R[y].queryId)
+    return [('at_most_two_rows_per_reference_and_query', forall([a, b, c], z3.Implies(z3.And(rng(0, a, R.len), rng(0, b, R.len), rng(0, c, R.len), a != b, b != c, a != c),
+                                                                                      z3.Not(z3.And(same(a, b), same(b, c)))),
+                                                                [MP(R.raw(a).t, R.raw(b).t, R.raw(c).t)]))]
+
+
+def _rr_ensures(C, res):
+    J, S = res[0], res[1]
+    i = z3.Int('i')
+    R = C.rows
+    if C.has('F'):
+        Fv = C.F
+        ga, gb, wsep, wa, wb = Fv.ga, Fv.gb, Fv.wsep, Fv.wa, Fv.wb
+    else:
+        # at call sites the callee's ghost state is existentially quantified: fresh symbols
+        e = C._e
+        ga, gb = C._view_list(e.fresh_list(ROW, 'ga')), C._view_list(e.fresh_list(ROW, 'gb'))
+        mk = lambda nm: z3.Const(fresh_name(nm), z3.ArraySort(Ref, z3.IntSort()))
+        wsep, wa, wb = mk('wsep'), mk('wa'), mk('wb')
+    acc = lambda x: z3.Or(_at(S, wsep, x), _at(ga, wa, x), _at(gb, wb, x))
+    return _joined_ok(C, J, ga, gb, C.maxDifference) + \
+        [('unjoined_rows_are_input_rows', forall(i, z3.Implies(rng(0, i, S.len), _in_rows(C.rows, S.raw(i).t)), [S.raw(i).t])),
+         ('every_input_row_is_unjoined_or_a_part_of_a_joined_row', forall(i, z3.Implies(rng(0, i, R.len), acc(R.raw(i).t)), [R.raw(i).t]))]
+
+
+_erow = lambda C: C._e.fresh_list(ROW, 'gsrc', n=z3.IntVal(0))
+_emap = lambda C: z3.K(Ref, z3.IntVal(-1))
+resolveRows = FunctionSpec(
+    file=F, qualname='AlignmentResults.resolve', params=dict(rows=LIST(ROW), maxDifference=REAL), returns=TUPLE(LIST(ROW), LIST(ROW)),
+    requires=_rr_requires, ensures=_rr_ensures, serves=('C08',),
+    loops={'for#0': Loop(inv=_rr_inv, kinds={'joined': LIST(ROW), 'separate': LIST(ROW)}),
+           'for#1': Loop(inv=lambda L: _rr_inv(L, inner=True), kinds={'joined': LIST(ROW), 'separate': LIST(ROW)})},
+    ghost={'ga': _erow, 'gb': _erow, 'wsep': _emap, 'wa': _emap, 'wb': _emap},
+    ghost_at={'call:append#0': _sep_one, 'call:append#1': _join_log, 'call:extend#0': _sep_two('call:extend#0'), 'call:extend#1': _sep_two('call:extend#1')},
+    note="a joined row exists only for two input rows of the same query, reference and strand whose reference gap is at most the maxDifference GIVEN to "
+         "this function (check_overlap's contract at the call site), and carries their ids and strand; every un-joined row is an input row. That no row is "
+         "lost needs at most two rows per (reference, query) and is left to the bounded C08 monitor")
+
+SPECS = [check_overlap, create, filterOut, getUnalignedFragments, rowResolve, resolveRows]
